@@ -186,11 +186,15 @@ def read_script(rng):
 def pause_block(rng):
     """Pause / resume requests issued back to back from ANOTHER thread, i.e. before the loop has processed the first
     of them (the harness joins the thread; the loop only runs at the next `iter`): stop,start / start,stop / longer
-    runs, on a reading or a paused connection; then the peer writes and the loop iterates.  The request made last must
+    runs, on a reading or a paused connection, also on one whose local side has already called shutdown() (it "keeps
+    receiving until the peer closes", C03); then the peer writes and the loop iterates.  The request made last must
     be the state the connection ends in: after `stopRead(); startRead();` the peer's bytes are delivered."""
     lines = []
-    if rng.random() < 0.3:
+    half = rng.random() < 0.35                                         # the local side has half-closed (kDisconnecting):
+    if rng.random() < (0.6 if half else 0.3):                          # it keeps receiving, and pause / resume keep working
         lines += ["act %s stopRead" % rng.choice("LF"), "iter"]        # start from a paused connection
+    if half:
+        lines += ["act %s shutdown" % rng.choice("LF"), "iter"] + (["iter"] if rng.random() < 0.5 else [])
     r = rng.random()
     if r < 0.55:
         seq = ["stopRead", "startRead"]
